@@ -370,8 +370,15 @@ def make_coop(pid, cfg, tier, seed, work):
         traces.append(coop.run_coop(seed * 1000003 + i * 7919 + 53, prof, be, i))
         if impl.TIMEOUTS[0] >= 3:
             break
+    # the scenario TLC explores exhaustively (MC_coop), on the real code: every interleaving in the
+    # thorough tier, a seeded sample of them in the quick tier
+    lim = (60, None if os.environ.get("VERIF_COOP_ALL") else 2000)[ti]
+    more, st = coop.exhaustive_traces(seed, "file", len(traces) + 1, limit=lim)
+    traces += more
     nsteps = sum(1 for t in traces for s in t["steps"] if s["op"] == "CoopNext")
-    return traces, {"scenarios": len(traces), "generator_steps": nsteps}
+    stats = {"scenarios": len(traces), "generator_steps": nsteps}
+    stats.update(st)
+    return traces, stats
 
 
 reg("C16", exc_ops={"CoopNext"}, prefixes=["C16.", "C02.inv"], maker=make_coop,
